@@ -249,6 +249,8 @@ def gen_exprs(n, seed, depth=3):
             # trigonometric / hyperbolic intrinsics and their inverses (same names in Fortran and C)
             "2.1d-10*atan(Tgas/1.d3)", "asin(invT)", "acos(T32/(1.d0+T32))", "sinh(lnTe)*1d-12", "tanh(Tgas/1d4)", "cos(Tgas/1.d2)+sin(Tgas/1.d2)", "atanh(invT/2.d0)", "1d-9*tan(invT)", "asinh(T32)", "acosh(1.d0+T32)", "cosh(invTe)",
             "dsqrt(Tgas)", "dlog10(Tgas)*1d-10", "dlog(Tgas)",
+            # a power as the right operand of a division (and of a subtraction): it stays one unit
+            "2.0d-9/(T32)**(-5.000e-01)", "user_a/Tgas**(-0.5)", "Tgas/invT**0.5", "user_a/Tgas**(-0.5d0)/T32", "1d0/Tgas**2/T32**(-0.5)", "Tgas-T32**(-0.5)", "1d-9/sqrTgas**(-1)", "2.5d0/Tgas**0.5d0*invT", "Tgas/T32**(-2)**1",
             # literals whose exponent is separated from the mantissa (fixed-form spelling) or doubled: reject, or keep the value
             "1.5 e-3*Tgas", "Tgas+2 E 3", "Tgas**(-0.5 e0)", "2.5e-1 e1*Tgas", "4.2d-10*exp(-1.5 e+2*invT)"]
     for e in base:
